@@ -3,6 +3,7 @@ package main
 import (
 	"bytes"
 	"fmt"
+	"os"
 	"path/filepath"
 	"reflect"
 	"strings"
@@ -445,9 +446,124 @@ func c11(run *ev.Run, tier string) {
 		}
 		removeWorkDir(root)
 	}
+	c11OneFormatFails(run, &ops, &compared)
 	run.Set("sequences_executed", nseq)
 	run.Set("operations_executed", ops)
 	run.Set("packages_compared_with_fresh_parse", compared)
 	run.Set("sequence_space", map[string]any{"symbols": len(syms), "max_length": maxLen, "exhaustive_sequences": nfixed - 120, "packaging_orders": 120, "random_length_5": nrandom})
 	run.Assume("builds are deterministic for a fixed mtime/build host (checked for every baseline; C07 covers it in depth)")
+}
+
+// c11OneFormatFails: a configuration that is fine for four formats and collides
+// for one (an entry tagged for that packager occupies a path a glob entry also
+// produces). Validating, naming or packaging the failing format reports the
+// collision - and leaves no trace: every other format is byte-identical to its
+// fresh-parse build afterwards and the configuration yields the same settings.
+func c11OneFormatFails(run *ev.Run, ops, compared *int64) {
+	dir := newWorkDir("c11f")
+	defer removeWorkDir(dir)
+	confd := filepath.Join(dir, "conf.d")
+	_ = os.MkdirAll(confd, 0o755)
+	mt := time.Unix(1300000000, 0)
+	for _, n := range []string{"a.conf", "b.conf", "c.conf"} {
+		_ = os.WriteFile(filepath.Join(confd, n), []byte(n+"\n"), 0o644)
+		_ = os.Chtimes(filepath.Join(confd, n), mt, mt)
+	}
+	single := filepath.Join(dir, "single.conf")
+	_ = os.WriteFile(single, []byte("single\n"), 0o644)
+	for _, bad := range formats {
+		for _, globDst := range []string{"/etc/foo/", "/etc/foo"} {
+			s := &gen.Spec{Name: "onefails", Arch: "amd64", Version: "1.0.0", Maintainer: "O <o@example.com>", Description: "d", MTime: 1400000000}
+			s.RPM.BuildHost = "verif-host"
+			s.Contents = []*gen.Content{
+				{Src: single, Dst: "/etc/foo/a.conf", Packager: bad},
+				{Src: confd + "/*.conf", Dst: globDst, Type: "config"},
+				{Src: confd, Dst: "/usr/share/onefails/conf.d"},
+			}
+			y := s.YAML()
+			fresh := map[string][]byte{}
+			snap := map[string]*nfpm.Info{}
+			ok := true
+			for _, f := range formats {
+				res := buildYAML(y, f)
+				if f == bad {
+					if res.Err == nil {
+						ok = false // no collision for this shape: nothing to learn
+					}
+					continue
+				}
+				if res.Err != nil || res.Panic != "" {
+					run.Violate("C11/"+f+"/build-error", map[string]any{"config": "one format fails", "error": fmt.Sprint(res.Err, res.Panic)})
+					ok = false
+					continue
+				}
+				fresh[f] = res.Bytes
+				if cfg, err := parseYAML(y, nil); err == nil {
+					snap[f], _ = cfg.Get(f)
+				}
+			}
+			if !ok {
+				continue
+			}
+			for _, first := range []string{"validate", "name", "package"} {
+				cfg, err := parseYAML(y, nil)
+				if err != nil {
+					run.Inconclusive(err.Error())
+					continue
+				}
+				run.Case(fmt.Sprintf("one-format-fails|%s|%s|%s", bad, globDst, first), true)
+				*ops++
+				switch first {
+				case "validate":
+					_ = cfg.Validate()
+				case "name":
+					if info, err := infoFor(&cfg, bad); err == nil {
+						if p, err := nfpm.Get(bad); err == nil {
+							_ = p.ConventionalFileName(info)
+						}
+						_ = packageInfo(bad, info)
+					}
+				default:
+					if info, err := infoFor(&cfg, bad); err == nil {
+						_ = packageInfo(bad, info)
+					}
+				}
+				for _, f := range formats {
+					if f == bad {
+						continue
+					}
+					info, err := infoFor(&cfg, f)
+					if err != nil {
+						run.Inconclusive(err.Error())
+						continue
+					}
+					res := packageInfo(f, info)
+					*ops++
+					*compared++
+					d := map[string]any{"failing_format": bad, "first_operation": first + " " + bad, "glob_destination": globDst}
+					if res.Err != nil || res.Panic != "" {
+						d["error"] = fmt.Sprint(res.Err, ev.Short(res.Panic, 200))
+						run.Violate("C11/"+f+"/package-fails-in-sequence/after-a-failed-"+first, d)
+						continue
+					}
+					if !bytes.Equal(res.Bytes, fresh[f]) {
+						d["len"], d["fresh_len"] = len(res.Bytes), len(fresh[f])
+						run.Violate("C11/"+f+"/bytes-differ-from-fresh-parse/after-a-failed-"+first, d)
+					}
+				}
+				for _, f := range formats {
+					if snap[f] == nil {
+						continue
+					}
+					info, err := cfg.Get(f)
+					if err != nil {
+						continue
+					}
+					if diff := firstDiff(reflect.ValueOf(snap[f]), reflect.ValueOf(info), "Info"); diff != "" {
+						run.Violate("C11/"+f+"/settings-changed-by-sequence/"+diffField(diff), map[string]any{"failing_format": bad, "first_operation": first + " " + bad, "difference": diff})
+					}
+				}
+			}
+		}
+	}
 }
